@@ -1159,7 +1159,8 @@ def _frame_allocator(cx, r):
     for name in ("reserve_local_register", "assign_local_register"):
         fn = F.fn(FRAME + name)
         require(fn is not None, f"R-NARROW: Frame::{name} not found")
-        require([s for s in sites(fn) if s[0] == "cast"], f"R-NARROW: the register index cast in Frame::{name} was not found")
+        # (their index casts, when present, are decided by the general clause; when the push moved into a helper the
+        # local-pushers clause above reports it)
     fn = F.fn(FRAME + "new")
     require(fn is not None, "R-NARROW: Frame::new not found")
     tf = [c for c in fn.calls() if (c.pretty or c.short or "").endswith("try_from") and c.args]
